@@ -67,6 +67,8 @@ Definition ispec (zero : bool) (w : nat) (tc : bytes) : bytes :=
 (* doubling every '%' of a text *)
 Fixpoint escape_percent (t : bytes) : bytes :=
   match t with [] => [] | c :: r => if ceq c "%" then "%" :: "%" :: escape_percent r else c :: escape_percent r end.
+(* k escaped backslashes: the source text \\ repeated k times *)
+Fixpoint bs_pairs (k : nat) : bytes := match k with O => [] | S k' => "\" :: "\" :: bs_pairs k' end.
 Definition no_backslash (t : bytes) : Prop := Forall (fun c => c <> "\") t.
 Definition no_nul (t : bytes) : Prop := Forall (fun c => c <> "000") t.
 
